@@ -6,7 +6,9 @@
 (* threaded through the traversal exactly as the code threads it:          *)
 (*   SearchAnchor   Searches.search_anchor        common/searches.py:126-176*)
 (*   SeqLoop        search_for_paths, list arm    yaml_paths.py:403-487    *)
-(*   MapLoop        search_for_paths, hash arm    490-628                  *)
+(*   MapLoop        search_for_paths, hash arm    523-680 (incl. the       *)
+(*                  aliased-key guard and the merge-key tail)              *)
+(*   RecordAnchors  _record_anchors                                        *)
 (*   SetLoop        search_for_paths, set arm     651-689                  *)
 (*   YSeqLoop /     yield_children                268-371                  *)
 (*   YMapLoop                                                              *)
@@ -17,8 +19,10 @@
 (*   [id    the position the result designates (a value position; for a    *)
 (*          key-name match the position held under that key),              *)
 (*    steps the path as the code builds it: key / idx / anc steps,         *)
-(*    kind  "value" | "key" | "ref" (anchor-name match) | "leaf" (a child  *)
-(*          listed by the expansion of a matched parent),                  *)
+(*    kind  "value" | "key" | "ref" / "kref" (anchor-name match of the     *)
+(*          value / of the key) | "leaf" (a child listed by the expansion  *)
+(*          of a matched parent) | "ymk" (a `<<` reference named by its    *)
+(*          anchor),                                                       *)
 (*    of    the matched position the result stands for (= id unless        *)
 (*          expanded)].                                                    *)
 (*                                                                         *)
@@ -36,19 +40,37 @@
 (*   ka / va    include_key_aliases / include_value_aliases                *)
 (*              (-A: F/F, -Y default: T/F, -y: F/T, -l: T/T)               *)
 (*   expand     --expand                                                   *)
-(* YData documents carry anchors on value positions only (an anchored      *)
-(* scalar and its aliases); anchored keys and merge keys are outside this  *)
-(* model (the harness judges curated documents of that kind by relations). *)
+(*                                                                         *)
+(* SIDE STRUCTURE.  The YData node table carries anchors on value          *)
+(* positions only.  Anchored / aliased KEYS and MERGE KEYS are described   *)
+(* by a record sx next to the table (the table's fields are unchanged):    *)
+(*   kanchor[i]  anchor name carried by the KEY under which position i is  *)
+(*               held ("" = none); the same name at the definition and at  *)
+(*               every alias of that key (it is one object)                *)
+(*   kalias      the positions whose key is an ALIAS (`*k :`) of an        *)
+(*               earlier anchored key (`&k key:`)                          *)
+(*   merges[u]   for a hash u: the anchored hashes it merges (`<<: *m`),   *)
+(*               in order                                                  *)
+(*   merged      the positions that are merged-in pairs: they ARE nodes of *)
+(*               the table (children of u after its own pairs, copies of   *)
+(*               the merged hash's pairs that u's own keys do not shadow - *)
+(*               what `items()` adds to `non_merged_items()`), so paths    *)
+(*               through them are ordinary key steps                       *)
+(* A `<<` reference itself is no node; the result that names it            *)
+(* (`u[&m]`) gets the position id YmkId(d, sx, u, r) > Len(d).             *)
+(* NoSide(d) is the empty side structure of a plain YData document.        *)
 (***************************************************************************)
 EXTENDS YQuery
 
 \* Design variants.  The default (PinnedDefects = {}) is the repaired source (fix: commits dcbc53b, 989f2f4,
-\* 5669cab); a member of PinnedDefects restores the pinned behaviour of that place, so that both the defective
+\* 5669cab, e476893); a member of PinnedDefects restores the pinned behaviour of that place, so that both the defective
 \* and the repaired design can be model-checked:
 \*   "set-in-seq"                 a Set held by a list is not descended into but compared as if it were a scalar
 \*   "expand-set"                 yield_children has no Set arm: a Set below an expanded parent is listed as one leaf
 \*   "alias-after-covered-anchor" the children of a parent matched by name (no --expand) are skipped without
 \*                                recording their anchors
+\*   "aliased-key"                the key's anchor is classified after the value's and only when key names are
+\*                                searched, and an aliased key is never discarded (before e476893)
 CONSTANT PinnedDefects
 Pinned(c) == c \in PinnedDefects
 
@@ -81,6 +103,14 @@ Expr(T) == (IF T.inv THEN "!" ELSE "") \o T.op \o (IF T.op = "=~" THEN "/" \o T.
 (*   ival / ikey / iref: some comparison of that family lies in a corner   *)
 (*   the documentation leaves open (YCompare.Silent)                       *)
 (***************************************************************************)
+NoSide(d) == [kanchor |-> [i \in 1..Len(d) |-> ""], kalias |-> {}, merges |-> [i \in 1..Len(d) |-> <<>>], merged |-> {}]
+KAnchorNames(sx) == {sx.kanchor[i] : i \in DOMAIN sx.kanchor} \ {""}
+RECURSIVE MergesBefore(_, _)
+MergesBefore(sx, u) == IF u <= 1 THEN 0 ELSE Len(sx.merges[u - 1]) + MergesBefore(sx, u - 1)
+YmkId(d, sx, u, r) == Len(d) + MergesBefore(sx, u) + r                  \* position id of the r-th `<<` reference of hash u
+YmkIds(d, sx) == UNION {{YmkId(d, sx, u, r) : r \in 1..Len(sx.merges[u])} : u \in 1..Len(d)}
+HasMerges(d, sx) == \E u \in 1..Len(d) : Len(sx.merges[u]) > 0
+
 ScalarIds(d) == {i \in 1..Len(d) : d[i].k = "s"}
 KeyedIds(d)  == {i \in 2..Len(d) : d[d[i].par].k = "map"}
 AnchorNames(d) == {d[i].anchor : i \in {x \in 1..Len(d) : d[x].anchor # ""}}
@@ -89,18 +119,19 @@ KeyHay(d, i) == Hay(KeyOf(d, i).t, KeyOf(d, i).v)
 Hit(T, hay) == Cond(Matches(T.op, T.term, hay), T.inv)
 
 \* H(T, hay) / Sl(T, hay): the comparison and its "documentation is silent" flag (a model may pass memoised versions)
-TabWith(d, T, H(_, _), Sl(_, _)) ==
+TabWith(d, sx, T, H(_, _), Sl(_, _)) ==
   [val  |-> [i \in ScalarIds(d) |-> H(T, ScalarHay(d, i))],
    key  |-> [i \in KeyedIds(d) |-> H(T, KeyHay(d, i))],
-   ref  |-> [a \in AnchorNames(d) |-> H(T, Hay("str", a))],
+   ref  |-> [a \in AnchorNames(d) \cup KAnchorNames(sx) |-> H(T, Hay("str", a))],
    \* pinned "set-in-seq" only: a Set met as a list element is compared as if it were a scalar (its Python
    \* text): never equal to a term of the vocabulary, so only the inversion decides
    setv |-> T.inv,
    ival |-> \E i \in ScalarIds(d) : Sl(T, ScalarHay(d, i)),
    ikey |-> \E i \in KeyedIds(d) : Sl(T, KeyHay(d, i)),
-   iref |-> \E a \in AnchorNames(d) : Sl(T, Hay("str", a))]
+   iref |-> \E a \in AnchorNames(d) \cup KAnchorNames(sx) : Sl(T, Hay("str", a))]
 SilentT(T, hay) == Silent(T.op, T.term, hay)
-Tab(d, T) == TabWith(d, T, Hit, SilentT)
+TabX(d, sx, T) == TabWith(d, sx, T, Hit, SilentT)
+Tab(d, T) == TabX(d, NoSide(d), T)
 
 HasSet(d) == \E s \in 1..Len(d) : d[s].k = "set"
 InSet(d, i) == i # Root /\ d[d[i].par].k = "set"
@@ -119,8 +150,9 @@ RECURSIVE RenderAcc(_, _, _)
 RenderAcc(steps, sepc, acc) ==
   IF Len(steps) = 0 THEN acc
   ELSE LET s == steps[1]
-           txt == IF s.ty = "key"
-                  THEN (IF acc # "" THEN acc \o sepc ELSE IF sepc = "/" THEN "/" ELSE "") \o EscSection(s.v, sepc)
+           txt == IF s.ty \in {"key", "ymk"}        \* ymk: the hash's prefix (with its separator) then "[&name]" (662-666)
+                  THEN (IF acc # "" THEN acc \o sepc ELSE IF sepc = "/" THEN "/" ELSE "")
+                       \o (IF s.ty = "key" THEN EscSection(s.v, sepc) ELSE "[&" \o EscSection(s.v, sepc) \o "]")
                   ELSE (IF acc = "" /\ sepc = "/" THEN "/" ELSE acc) \o "["
                        \o (IF s.ty = "idx" THEN s.v ELSE "&" \o EscSection(s.v, sepc)) \o "]"
        IN RenderAcc(Tail(steps), sepc, txt)
@@ -157,8 +189,8 @@ Resolves(d, i, sepc) == LET r == ReResolve(d, StepsTo(d, i), sepc) IN r.err = ""
 (* Searches.search_anchor.  Traversal state st = [seen, out, log]:         *)
 (*   seen  anchor names met so far (seen_anchors)                          *)
 (*   out   results yielded so far                                          *)
-(*   log   the classification of every anchored node met, in call order    *)
-(*         (the observable trace of the threaded state; bound by the       *)
+(*   log   the classification of every anchored node or key met, in call   *)
+(*         order (the observable trace of the threaded state; bound by the *)
 (*         harness to the recorded calls of the real function)             *)
 (***************************************************************************)
 St0 == [seen |-> {}, out |-> <<>>, log |-> <<>>]
@@ -175,120 +207,154 @@ SearchAnchor(name, m, st, refs, incl) ==
                 ELSE "NO_MATCH"
        IN [r |-> r, st |-> [st EXCEPT !.seen = @ \cup {name}, !.log = Append(@, <<name, r>>)]]
 
+\* pool = data.items() when key or value aliases are included, else data.non_merged_items() (332-334, 530-532)
+InPool(sx, O, v) == v \notin sx.merged \/ O.ka \/ O.va
+
 (***************************************************************************)
 (* yield_children                                                          *)
 (***************************************************************************)
-RECURSIVE YieldChildren(_, _, _, _, _, _, _)
-RECURSIVE YSeqLoop(_, _, _, _, _, _, _, _)
-RECURSIVE YMapLoop(_, _, _, _, _, _, _, _)
-RECURSIVE YSetLoop(_, _, _, _, _, _, _, _)
+RECURSIVE YieldChildren(_, _, _, _, _, _, _, _)
+RECURSIVE YSeqLoop(_, _, _, _, _, _, _, _, _)
+RECURSIVE YMapLoop(_, _, _, _, _, _, _, _, _)
+RECURSIVE YSetLoop(_, _, _, _, _, _, _, _, _)
 YConts == IF Pinned("expand-set") THEN {"map", "seq"} ELSE {"map", "seq", "set"}     \* 316, 358
 
-YSeqLoop(d, x, j, steps, st, m, O, of) ==                                                \* 288-324
+YSeqLoop(d, sx, x, j, steps, st, m, O, of) ==                                            \* 288-324
   IF j > Len(d[x].kids) THEN st
   ELSE LET e == d[x].kids[j]
            sa == SearchAnchor(d[e].anchor, m, st, O.refs, O.va)
            tp == Append(steps, IF sa.r = "NO_ANCHOR" THEN Step("idx", NatStr(j - 1)) ELSE Step("anc", d[e].anchor))
            st2 == IF ~O.va /\ sa.r \in Excluders THEN sa.st                              \* 312-314
-                  ELSE IF d[e].k \in YConts THEN YieldChildren(d, e, tp, sa.st, m, O, of)
+                  ELSE IF d[e].k \in YConts THEN YieldChildren(d, sx, e, tp, sa.st, m, O, of)
                   ELSE Yield(sa.st, e, tp, "leaf", of)
-       IN YSeqLoop(d, x, j + 1, steps, st2, m, O, of)
+       IN YSeqLoop(d, sx, x, j + 1, steps, st2, m, O, of)
 
-YMapLoop(d, x, j, steps, st, m, O, of) ==                                                \* 326-366
+YMapLoop(d, sx, x, j, steps, st, m, O, of) ==                                            \* 326-366
   IF j > Len(d[x].kids) THEN st
   ELSE LET v == d[x].kids[j]
            tp == Append(steps, Step("key", d[x].keys[j].v))
-           \* the key's own anchor is classified first (339-341); YData keys carry none
-           sv == SearchAnchor(d[v].anchor, m, st, O.refs, O.va)                          \* 342-344
-           st2 == IF ~O.va /\ sv.r \in Excluders THEN sv.st                              \* 350-356
-                  ELSE IF d[v].k \in YConts THEN YieldChildren(d, v, tp, sv.st, m, O, of)
+           sk == SearchAnchor(sx.kanchor[v], m, st, O.refs, O.ka)                        \* 339-341: the key first
+           sv == SearchAnchor(d[v].anchor, m, sk.st, O.refs, O.va)                       \* 342-344
+           st2 == IF ~InPool(sx, O, v) THEN st                                           \* not among the pairs iterated
+                  ELSE IF (~O.ka /\ sk.r \in Excluders) \/ (~O.va /\ sv.r \in Excluders) THEN sv.st   \* 350-356
+                  ELSE IF d[v].k \in YConts THEN YieldChildren(d, sx, v, tp, sv.st, m, O, of)
                   ELSE Yield(sv.st, v, tp, "leaf", of)                                   \* (pinned: a Set is listed as itself)
-       IN YMapLoop(d, x, j + 1, steps, st2, m, O, of)
+       IN YMapLoop(d, sx, x, j + 1, steps, st2, m, O, of)
 
-YSetLoop(d, x, j, steps, st, m, O, of) ==                                                \* the Set arm (repaired source)
+YSetLoop(d, sx, x, j, steps, st, m, O, of) ==                                            \* the Set arm (repaired source)
   IF j > Len(d[x].kids) THEN st
   ELSE LET e == d[x].kids[j]
            sa == SearchAnchor(d[e].anchor, m, st, O.refs, O.ka)
            st2 == IF ~O.ka /\ sa.r \in Excluders THEN sa.st
                   ELSE Yield(sa.st, e, Append(steps, Step("key", d[e].v)), "leaf", of)
-       IN YSetLoop(d, x, j + 1, steps, st2, m, O, of)
+       IN YSetLoop(d, sx, x, j + 1, steps, st2, m, O, of)
 
-YieldChildren(d, x, steps, st, m, O, of) ==
-  IF d[x].k = "seq" THEN YSeqLoop(d, x, 1, steps, st, m, O, of)
-  ELSE IF d[x].k = "map" THEN YMapLoop(d, x, 1, steps, st, m, O, of)
-  ELSE IF d[x].k = "set" /\ ~Pinned("expand-set") THEN YSetLoop(d, x, 1, steps, st, m, O, of)
+YieldChildren(d, sx, x, steps, st, m, O, of) ==
+  IF d[x].k = "seq" THEN YSeqLoop(d, sx, x, 1, steps, st, m, O, of)
+  ELSE IF d[x].k = "map" THEN YMapLoop(d, sx, x, 1, steps, st, m, O, of)                 \* (no merge-key tail here)
+  ELSE IF d[x].k = "set" /\ ~Pinned("expand-set") THEN YSetLoop(d, sx, x, 1, steps, st, m, O, of)
   ELSE Yield(st, x, steps, "leaf", of)                                                   \* the last arm: a scalar
 
 (***************************************************************************)
 (* search_for_paths                                                        *)
 (***************************************************************************)
-RECURSIVE SearchAt(_, _, _, _, _, _)
-RECURSIVE SeqLoop(_, _, _, _, _, _, _)
-RECURSIVE MapLoop(_, _, _, _, _, _, _)
-RECURSIVE SetLoop(_, _, _, _, _, _, _)
+RECURSIVE SearchAt(_, _, _, _, _, _, _)
+RECURSIVE SeqLoop(_, _, _, _, _, _, _, _)
+RECURSIVE MapLoop(_, _, _, _, _, _, _, _)
+RECURSIVE SetLoop(_, _, _, _, _, _, _, _)
+RECURSIVE MergeTail(_, _, _, _, _, _, _, _)
 
 \* _record_anchors (repaired source): the anchors beneath a node whose children will not be searched are put on
-\* record - search_anchor with its default arguments (no --refnames), key before value, value before its children
-RECURSIVE RecordAnchors(_, _, _, _)
-RECURSIVE RecordLoop(_, _, _, _, _)
-RecordLoop(d, x, j, st, m) ==
-  IF j > Len(d[x].kids) THEN st
-  ELSE LET e == d[x].kids[j] IN
-       RecordLoop(d, x, j + 1, RecordAnchors(d, e, SearchAnchor(d[e].anchor, m, st, FALSE, FALSE).st, m), m)
-RecordAnchors(d, x, st, m) == IF d[x].k = "s" THEN st ELSE RecordLoop(d, x, 1, st, m)
-
-\* a match by name: the node itself, or (expansion) its children
-MatchedParent(d, v, tp, st, m, O, kind) ==
-  IF O.expand THEN YieldChildren(d, v, tp, st, m, O, v)
-  ELSE Yield(IF Pinned("alias-after-covered-anchor") THEN st ELSE RecordAnchors(d, v, st, m), v, tp, kind, v)
-
-SeqLoop(d, x, j, steps, st, m, O) ==                                                     \* 409-487
+\* record - search_anchor with its default arguments (no --refnames) over non_merged_items(), key before value,
+\* value before its children
+RECURSIVE RecordAnchors(_, _, _, _, _)
+RECURSIVE RecordLoop(_, _, _, _, _, _)
+RecordLoop(d, sx, x, j, st, m) ==
   IF j > Len(d[x].kids) THEN st
   ELSE LET e == d[x].kids[j]
-           sa == SearchAnchor(d[e].anchor, m, st, O.refs, O.va)                          \* 411-413
+           sk == IF d[x].k = "map" THEN SearchAnchor(sx.kanchor[e], m, st, FALSE, FALSE).st ELSE st
+       IN RecordLoop(d, sx, x, j + 1,
+                     IF e \in sx.merged THEN st
+                     ELSE RecordAnchors(d, sx, e, SearchAnchor(d[e].anchor, m, sk, FALSE, FALSE).st, m), m)
+RecordAnchors(d, sx, x, st, m) == IF d[x].k = "s" THEN st ELSE RecordLoop(d, sx, x, 1, st, m)
+
+\* a match by name: the node itself, or (expansion) its children
+MatchedParent(d, sx, v, tp, st, m, O, kind) ==
+  IF O.expand THEN YieldChildren(d, sx, v, tp, st, m, O, v)
+  ELSE Yield(IF Pinned("alias-after-covered-anchor") THEN st ELSE RecordAnchors(d, sx, v, st, m), v, tp, kind, v)
+
+SeqLoop(d, sx, x, j, steps, st, m, O) ==                                                 \* 432-510
+  IF j > Len(d[x].kids) THEN st
+  ELSE LET e == d[x].kids[j]
+           sa == SearchAnchor(d[e].anchor, m, st, O.refs, O.va)
            tp == Append(steps, IF sa.r = "NO_ANCHOR" THEN Step("idx", NatStr(j - 1)) ELSE Step("anc", d[e].anchor))
-           st2 == IF sa.r = "ALIAS_EXCLUDED" THEN sa.st                                  \* 430-431
-                  ELSE IF sa.r \in Matched THEN MatchedParent(d, e, tp, sa.st, m, O, "ref")   \* 433-449
+           st2 == IF sa.r = "ALIAS_EXCLUDED" THEN sa.st
+                  ELSE IF sa.r \in Matched THEN MatchedParent(d, sx, e, tp, sa.st, m, O, "ref")
                   ELSE IF d[e].k \in (IF Pinned("set-in-seq") THEN {"seq", "map"} ELSE {"seq", "map", "set"})
-                       THEN SearchAt(d, e, tp, sa.st, m, O)                              \* 451-470
-                  ELSE IF O.vals THEN                                                    \* 471-487 (pinned: a Set lands here)
+                       THEN SearchAt(d, sx, e, tp, sa.st, m, O)
+                  ELSE IF O.vals THEN                                                    \* (pinned: a Set lands here)
                     (IF sa.r = "UNSEARCHABLE_ALIAS" /\ ~O.va THEN sa.st
                      ELSE IF (IF d[e].k = "s" THEN m.val[e] ELSE m.setv) THEN Yield(sa.st, e, tp, "value", e)
                      ELSE sa.st)
                   ELSE sa.st
-       IN SeqLoop(d, x, j + 1, steps, st2, m, O)
+       IN SeqLoop(d, sx, x, j + 1, steps, st2, m, O)
 
-MapLoop(d, x, j, steps, st, m, O) ==                                                     \* 500-628
+MapLoop(d, sx, x, j, steps, st, m, O) ==                                                 \* 534-653
   IF j > Len(d[x].kids) THEN st
   ELSE LET v == d[x].kids[j]
            tp == Append(steps, Step("key", d[x].keys[j].v))
-           sv == SearchAnchor(d[v].anchor, m, st, O.refs, O.va)                          \* 506-508: value first, "to have it on record"
-           st2 == IF O.keys /\ m.key[v] THEN MatchedParent(d, v, tp, sv.st, m, O, "key")      \* 516-567 (keys carry no anchors here)
-                  ELSE IF sv.r = "ALIAS_EXCLUDED" THEN sv.st                             \* 570-571
-                  ELSE IF sv.r \in Matched THEN MatchedParent(d, v, tp, sv.st, m, O, "ref")   \* 573-589
-                  ELSE IF d[v].k \in {"seq", "map", "set"} THEN SearchAt(d, v, tp, sv.st, m, O)   \* 591-611
-                  ELSE IF O.vals THEN                                                    \* 612-628
-                    (IF sv.r = "UNSEARCHABLE_ALIAS" /\ ~O.va THEN sv.st
-                     ELSE IF m.val[v] THEN Yield(sv.st, v, tp, "value", v) ELSE sv.st)
-                  ELSE sv.st
-       IN MapLoop(d, x, j + 1, steps, st2, m, O)                                         \* (630-649: merge keys, outside YData)
+           old == Pinned("aliased-key")
+           \* repaired: the key's anchor first, always, then the value's (540-557); pinned: the value's first, the
+           \* key's only when key names are searched
+           k1 == SearchAnchor(sx.kanchor[v], m, st, O.refs, O.ka)
+           v1 == SearchAnchor(d[v].anchor, m, IF old THEN st ELSE k1.st, O.refs, O.va)
+           k2 == IF O.keys THEN SearchAnchor(sx.kanchor[v], m, v1.st, O.refs, O.ka) ELSE [r |-> "NO_ANCHOR", st |-> v1.st]
+           sk == IF old THEN k2 ELSE k1
+           sv == v1
+           s0 == IF old THEN k2.st ELSE v1.st           \* the state once both are on record
+           st2 == IF ~InPool(sx, O, v) THEN st                                           \* not among the pairs iterated
+                  ELSE IF ~old /\ ~O.ka /\ sk.r \in Excluders THEN RecordAnchors(d, sx, v, s0, m)      \* 559-564: the aliased-key guard
+                  ELSE IF O.keys /\ sk.r \in Matched THEN MatchedParent(d, sx, v, tp, s0, m, O, "kref")  \* 567-584
+                  ELSE IF O.keys /\ m.key[v] THEN MatchedParent(d, sx, v, tp, s0, m, O, "key")           \* 586-608
+                  ELSE IF sv.r = "ALIAS_EXCLUDED" THEN s0                                \* 611-612
+                  ELSE IF sv.r \in Matched THEN MatchedParent(d, sx, v, tp, s0, m, O, "ref")          \* 614-631
+                  ELSE IF d[v].k \in {"seq", "map", "set"} THEN SearchAt(d, sx, v, tp, s0, m, O)      \* 633-653
+                  ELSE IF O.vals THEN                                                    \* 654-670
+                    (IF sv.r = "UNSEARCHABLE_ALIAS" /\ ~O.va THEN s0
+                     ELSE IF m.val[v] THEN Yield(s0, v, tp, "value", v) ELSE s0)
+                  ELSE s0
+       IN MapLoop(d, sx, x, j + 1, steps, st2, m, O)
 
-SetLoop(d, x, j, steps, st, m, O) ==                                                     \* 657-689: neither -K nor -i is consulted
+\* "Include YAML Merge Keys when include_value_aliases is enabled" (655-680): every `<<` reference whose anchor
+\* name satisfies the expression is reported as [&name] under the hash (neither -a nor -i/-k/-K is consulted)
+\* all_anchors comes from Anchors.scan_for_anchors (anchors.py:17-45), which records the anchors of keys and of
+\* values of hashes and of scalar list elements - not the anchor of a hash or list that is itself a list element
+Scanned(d, t) == t # Root /\ (d[d[t].par].k = "map" \/ d[t].k = "s")
+MergeTail(d, sx, x, r, steps, st, m, O) ==
+  IF r > Len(sx.merges[x]) THEN st
+  ELSE LET name == d[sx.merges[x][r]].anchor
+           st2 == IF Scanned(d, sx.merges[x][r]) /\ m.ref[name] THEN Yield(st, YmkId(d, sx, x, r), Append(steps, Step("ymk", name)), "ymk", YmkId(d, sx, x, r)) ELSE st
+       IN MergeTail(d, sx, x, r + 1, steps, st2, m, O)
+
+SetLoop(d, sx, x, j, steps, st, m, O) ==                                                 \* neither -K nor -i is consulted
   IF j > Len(d[x].kids) THEN st
   ELSE LET e == d[x].kids[j]
            tp == Append(steps, Step("key", d[e].v))
            sa == SearchAnchor(d[e].anchor, m, st, O.refs, O.ka)
            st2 == IF sa.r \in Matched THEN Yield(sa.st, e, tp, "ref", e)
                   ELSE IF m.val[e] THEN Yield(sa.st, e, tp, "value", e) ELSE sa.st
-       IN SetLoop(d, x, j + 1, steps, st2, m, O)
+       IN SetLoop(d, sx, x, j + 1, steps, st2, m, O)
 
-SearchAt(d, x, steps, st, m, O) ==
-  IF d[x].k = "seq" THEN SeqLoop(d, x, 1, steps, st, m, O)
-  ELSE IF d[x].k = "map" THEN MapLoop(d, x, 1, steps, st, m, O)
-  ELSE IF d[x].k = "set" THEN SetLoop(d, x, 1, steps, st, m, O)
+SearchAt(d, sx, x, steps, st, m, O) ==
+  IF d[x].k = "seq" THEN SeqLoop(d, sx, x, 1, steps, st, m, O)
+  ELSE IF d[x].k = "map" THEN
+    LET s1 == MapLoop(d, sx, x, 1, steps, st, m, O) IN
+    IF O.va THEN MergeTail(d, sx, x, 1, steps, s1, m, O) ELSE s1
+  ELSE IF d[x].k = "set" THEN SetLoop(d, sx, x, 1, steps, st, m, O)
   ELSE st                                                  \* a scalar document: no arm, nothing is yielded
 
-SearchRun(d, m, O) == SearchAt(d, Root, <<>>, St0, m, O)   \* final traversal state
+SearchRunX(d, sx, m, O) == SearchAt(d, sx, Root, <<>>, St0, m, O)   \* final traversal state
+SearchRun(d, m, O) == SearchRunX(d, NoSide(d), m, O)
 SearchM(d, m, O) == SearchRun(d, m, O).out
 Search(d, T, O) == SearchM(d, Tab(d, T), O)
 Ids(rs) == [j \in 1..Len(rs) |-> rs[j].id]
@@ -298,41 +364,103 @@ Ids(rs) == [j \in 1..Len(rs) |-> rs[j].id]
 (*   "-k search key names in addition to values and array elements",       *)
 (*   "-K only search key names", "-a also search the names of &anchor and  *)
 (*   *alias references"; "-A include only original matching key and value  *)
-(*   anchors, discarding all aliased keys and values"; "-y / -l include    *)
-(*   matching value aliases"; CHANGES 2.1.1: "when a node is matched by    *)
-(*   name, any children are ignored because they will have already been    *)
-(*   yielded as the parent node's value".  Members of a Set are searched   *)
-(*   in every mode (they are keys and elements at once).                   *)
+(*   anchors, discarding all aliased keys and values (including child      *)
+(*   nodes)"; "-Y include matching key aliases, permitting search          *)
+(*   traversal into their child nodes"; "-y include matching value aliases *)
+(*   (does not permit search traversal into aliased keys)"; CHANGES 2.1.1: *)
+(*   "when a node is matched by name, any children are ignored because     *)
+(*   they will have already been yielded as the parent node's value".      *)
+(*   Members of a Set are searched in every mode.                          *)
+(* Keys and merge keys:                                                    *)
+(*   - an aliased key, with everything below it, counts only when key      *)
+(*     aliases are included;                                               *)
+(*   - a merged-in pair counts only through the pool rule (key or value    *)
+(*     aliases included);                                                  *)
+(*   - the name of a key's anchor is searched with --refnames where key    *)
+(*     names are searched;                                                 *)
+(*   - a `<<` reference is reported (as [&name]) when its anchor's name    *)
+(*     satisfies the expression and value aliases are included (the usage  *)
+(*     text does not mention merge keys: without --refnames, in key-names- *)
+(*     only mode, and for a merged hash that is a list element - which the *)
+(*     code's anchor scan does not record - the case is informational).    *)
 (***************************************************************************)
+Excl(sx, O, i) == (i \in sx.kalias /\ ~O.ka) \/ ~InPool(sx, O, i)
 KeyHit(d, m, O, i) == O.keys /\ i \in KeyedIds(d) /\ m.key[i]
+KRefHit(sx, m, O, i) == O.keys /\ O.refs /\ sx.kanchor[i] # "" /\ m.ref[sx.kanchor[i]]
 RefHit(d, m, O, i) == O.refs /\ d[i].anchor # "" /\ m.ref[d[i].anchor]
 ValHit(d, m, O, i) == d[i].k = "s" /\ m.val[i] /\ (O.vals \/ d[d[i].par].k = "set")
 AliasOK(d, O, i) == d[i].alias = 0 \/ O.va            \* an aliased repeat counts only when value aliases are asked for
-Own(d, m, O, i) == KeyHit(d, m, O, i) \/ ((RefHit(d, m, O, i) \/ ValHit(d, m, O, i)) /\ AliasOK(d, O, i))
-ByName(d, m, O, a) == KeyHit(d, m, O, a) \/ (RefHit(d, m, O, a) /\ AliasOK(d, O, a))
-Covered(d, m, O, i) == \E a \in 2..(i - 1) : IsUnder(d, i, a) /\ ByName(d, m, O, a)
+ByName(d, sx, m, O, a) == KeyHit(d, m, O, a) \/ KRefHit(sx, m, O, a) \/ (RefHit(d, m, O, a) /\ AliasOK(d, O, a))
+Own(d, sx, m, O, i) == ~Excl(sx, O, i) /\ (ByName(d, sx, m, O, i) \/ (ValHit(d, m, O, i) /\ AliasOK(d, O, i)))
+\* the search does not go below a: it was matched by name, or it is discarded
+Closed(d, sx, m, O, a) == Excl(sx, O, a) \/ ByName(d, sx, m, O, a)
+Covered(d, sx, m, O, i) == \E a \in 2..(i - 1) : IsUnder(d, i, a) /\ Closed(d, sx, m, O, a)
+Reached(d, sx, m, O, u) == u = Root \/ (~Closed(d, sx, m, O, u) /\ ~Covered(d, sx, m, O, u))      \* the hash u is searched
+YmkHits(d, sx, m, O) ==
+  {YmkId(d, sx, p[1], p[2]) : p \in {q \in UNION {{<<u, r>> : r \in 1..Len(sx.merges[u])} : u \in 1..Len(d)} :
+                                       /\ O.va /\ m.ref[d[sx.merges[q[1]][q[2]]].anchor] /\ Reached(d, sx, m, O, q[1])
+                                       \* (mirror, informational: the merged hash must be one scan_for_anchors records)
+                                       /\ Scanned(d, sx.merges[q[1]][q[2]])}}
 
-MatchingM(d, m, O) == {i \in 2..Len(d) : Own(d, m, O, i) /\ ~Covered(d, m, O, i)}
+MatchingX(d, sx, m, O) == {i \in 2..Len(d) : Own(d, sx, m, O, i) /\ ~Covered(d, sx, m, O, i)} \cup YmkHits(d, sx, m, O)
+MatchingM(d, m, O) == MatchingX(d, NoSide(d), m, O)
 Matching(d, T, O) == MatchingM(d, Tab(d, T), O)
 
-\* --expand: "expand matching parent nodes to list all permissible child leaf nodes"
+\* --expand: "expand matching parent nodes to list all permissible child leaf nodes": the leaves below the
+\* parent with no discarded key, value alias or merged pair on the way
 RECURSIVE SetOfSeq(_)
 SetOfSeq(s) == IF Len(s) = 0 THEN {} ELSE {s[1]} \cup SetOfSeq(Tail(s))
-ExpandOf(d, O, i) == IF d[i].k = "s" THEN {i} ELSE {l \in SetOfSeq(LeavesOf(d, i)) : AliasOK(d, O, l)}
-ExpectedOf(d, O, mt) == IF O.expand THEN UNION {ExpandOf(d, O, i) : i \in mt} ELSE mt      \* mt = MatchingM(d, m, O)
+Permitted(d, sx, O, i, l) == \A a \in (i + 1)..l : IsUnder(d, l, a) => (~Excl(sx, O, a) /\ AliasOK(d, O, a))
+ExpandOfX(d, sx, O, i) == IF i > Len(d) \/ d[i].k = "s" THEN {i} ELSE {l \in SetOfSeq(LeavesOf(d, i)) : Permitted(d, sx, O, i, l)}
+ExpectedOfX(d, sx, O, mt) == IF O.expand THEN UNION {ExpandOfX(d, sx, O, i) : i \in mt} ELSE mt      \* mt = MatchingX(d, sx, m, O)
+ExpandOf(d, O, i) == ExpandOfX(d, NoSide(d), O, i)
+ExpectedOf(d, O, mt) == ExpectedOfX(d, NoSide(d), O, mt)
 ExpectedM(d, m, O) == ExpectedOf(d, O, MatchingM(d, m, O))
 Expected(d, T, O) == ExpectedM(d, Tab(d, T), O)
 
 (***************************************************************************)
+(* Well-formedness of a side structure                                     *)
+(***************************************************************************)
+WellFormedSide(d, sx) ==
+  LET own(u) == {c \in SetOfSeq(d[u].kids) : c \notin sx.merged} IN
+  /\ DOMAIN sx.kanchor = 1..Len(d) /\ DOMAIN sx.merges = 1..Len(d)
+  /\ \A i \in 1..Len(d) : sx.kanchor[i] # "" => i \in KeyedIds(d)
+  /\ KAnchorNames(sx) \cap AnchorNames(d) = {}
+  /\ sx.kalias \subseteq {i \in 1..Len(d) : sx.kanchor[i] # ""}
+  \* every name is defined on exactly one key, and an alias repeats that key (same text) later in the document
+  /\ \A p, q \in (1..Len(d)) \ sx.kalias : (sx.kanchor[p] # "" /\ sx.kanchor[p] = sx.kanchor[q]) => p = q
+  /\ \A q \in sx.kalias : \E p \in 2..(q - 1) : p \notin sx.kalias /\ sx.kanchor[p] = sx.kanchor[q] /\ KeyOf(d, p) = KeyOf(d, q)
+  \* merged hashes are anchored hashes that are complete before the merging hash begins
+  /\ \A u \in 1..Len(d) : \A r \in 1..Len(sx.merges[u]) :
+       LET t == sx.merges[u][r] IN d[u].k = "map" /\ t \in 2..(u - 1) /\ d[t].k = "map" /\ d[t].anchor # "" /\ d[t].alias = 0 /\ ~IsUnder(d, u, t)
+  \* a merged-in pair is a copy of a pair of a merged hash (same key object, same value object) and follows the own pairs
+  /\ \A n \in sx.merged : LET u == d[n].par IN
+       /\ n \in KeyedIds(d) /\ \A c \in own(u) : c < n
+       /\ \E r \in 1..Len(sx.merges[u]) : \E c \in SetOfSeq(d[sx.merges[u][r]].kids) :
+            /\ KeyOf(d, c) = KeyOf(d, n) /\ d[c].k = d[n].k /\ d[c].t = d[n].t /\ d[c].v = d[n].v /\ d[c].anchor = d[n].anchor
+            /\ sx.kanchor[c] = sx.kanchor[n] /\ (sx.kanchor[c] # "" => n \in sx.kalias)
+            /\ (d[n].anchor # "" => d[n].alias # 0)
+  \* local keys shadow merged ones; every pair of a merged hash is seen through the merging hash exactly once
+  /\ \A u \in 1..Len(d) : \A r \in 1..Len(sx.merges[u]) : \A c \in SetOfSeq(d[sx.merges[u][r]].kids) :
+       Cardinality({k \in SetOfSeq(d[u].kids) : KeyOf(d, k) = KeyOf(d, c)}) = 1
+
+(***************************************************************************)
 (* Design theorems, per (document, match table, options)                   *)
 (***************************************************************************)
-\* rs = the results of SearchM(d, m, O) and mt = MatchingM(d, m, O), passed in so that a model evaluates each once
+\* rs = the results of the search and mt = the matching set, passed in so that a model evaluates each once
 NoRepeats(rs) == \A a, b \in 1..Len(rs) : a # b => rs[a].id # rs[b].id
-SoundCompleteR(d, O, rs, mt) == NoRepeats(rs) /\ SetOfSeq(Ids(rs)) = ExpectedOf(d, O, mt)
-PathsCanonicalR(d, rs) == \A j \in 1..Len(rs) : rs[j].steps = StepsTo(d, rs[j].id)
-ExpandsExactlyR(d, O, rs, mt) ==
+SoundCompleteX(d, sx, O, rs, mt) == NoRepeats(rs) /\ SetOfSeq(Ids(rs)) = ExpectedOfX(d, sx, O, mt)
+StepsOfId(d, sx, id) ==
+  IF id <= Len(d) THEN StepsTo(d, id)
+  ELSE LET p == CHOOSE q \in UNION {{<<u, r>> : r \in 1..Len(sx.merges[u])} : u \in 1..Len(d)} : YmkId(d, sx, q[1], q[2]) = id
+       IN Append(StepsTo(d, p[1]), Step("ymk", d[sx.merges[p[1]][p[2]]].anchor))
+PathsCanonicalX(d, sx, rs) == \A j \in 1..Len(rs) : rs[j].steps = StepsOfId(d, sx, rs[j].id)
+ExpandsExactlyX(d, sx, O, rs, mt) ==
   /\ {rs[j].of : j \in 1..Len(rs)} \subseteq mt
-  /\ \A i \in mt : {rs[j].id : j \in {x \in 1..Len(rs) : rs[x].of = i}} = (IF O.expand THEN ExpandOf(d, O, i) ELSE {i})
+  /\ \A i \in mt : {rs[j].id : j \in {x \in 1..Len(rs) : rs[x].of = i}} = (IF O.expand THEN ExpandOfX(d, sx, O, i) ELSE {i})
+SoundCompleteR(d, O, rs, mt) == SoundCompleteX(d, NoSide(d), O, rs, mt)
+PathsCanonicalR(d, rs) == PathsCanonicalX(d, NoSide(d), rs)
+ExpandsExactlyR(d, O, rs, mt) == ExpandsExactlyX(d, NoSide(d), O, rs, mt)
 SoundComplete(d, m, O) == SoundCompleteR(d, O, SearchM(d, m, O), MatchingM(d, m, O))
 PathsCanonical(d, m, O) == PathsCanonicalR(d, SearchM(d, m, O))
 ExpandsExactly(d, m, O) == ExpandsExactlyR(d, O, SearchM(d, m, O), MatchingM(d, m, O))
@@ -343,27 +471,37 @@ ExpandsExactly(d, m, O) == ExpandsExactlyR(d, O, SearchM(d, m, O), MatchingM(d, 
 (* the table and the options - never on Search's outcome.  With            *)
 (* PinnedDefects = {} no class applies and T2/T4 must hold everywhere.     *)
 (***************************************************************************)
-\* a Set held in a list is not descended into (451 tests only lists and hashes)
+\* a Set held in a list is not descended into
 SetInSeq(d) == \E s \in 2..Len(d) : d[s].k = "set" /\ d[d[s].par].k = "seq"
-\* the expansion of a matched parent lists a Set below it as one leaf (yield_children has no Set arm)
-ExpandSetR(d, O, mt) == O.expand /\ \E i \in mt : d[i].k # "s" /\ \E s \in SubtreeIds(d, i) : d[s].k = "set"
+\* the expansion of a matched parent lists a Set below it as one leaf (yield_children had no Set arm)
+ExpandSetR(d, O, mt) == O.expand /\ \E i \in mt : i <= Len(d) /\ d[i].k # "s" /\ \E s \in SubtreeIds(d, i) : d[s].k = "set"
 \* the children of a parent matched by name are skipped without recording their anchors, so an alias of an
 \* anchor defined below that parent is taken for the original
-AliasAfterCovered(d, m, O) ==
-  ~O.expand /\ ~O.va /\ \E i \in 2..Len(d) : d[i].alias # 0 /\ Covered(d, m, O, d[i].alias)
-DevClassR(d, m, O, mt) ==
+AliasAfterCovered(d, sx, m, O) ==
+  ~O.expand /\ \/ (~O.va /\ \E i \in 2..Len(d) : d[i].alias # 0 /\ Covered(d, sx, m, O, d[i].alias))
+               \/ (~O.ka /\ \E q \in sx.kalias : \E p \in 2..(q - 1) : sx.kanchor[p] = sx.kanchor[q] /\ Covered(d, sx, m, O, p))
+\* an aliased key is reported / descended into although key aliases are not included
+AliasedKey(sx, O) == ~O.ka /\ sx.kalias # {}
+DevClassX(d, sx, m, O, mt) ==
   IF Pinned("set-in-seq") /\ SetInSeq(d) THEN "set-in-seq"
   ELSE IF Pinned("expand-set") /\ ExpandSetR(d, O, mt) THEN "expand-set"
-  ELSE IF Pinned("alias-after-covered-anchor") /\ AliasAfterCovered(d, m, O) THEN "alias-after-covered-anchor"
+  ELSE IF Pinned("alias-after-covered-anchor") /\ AliasAfterCovered(d, sx, m, O) THEN "alias-after-covered-anchor"
+  ELSE IF Pinned("aliased-key") /\ AliasedKey(sx, O) THEN "aliased-key"
   ELSE ""
+DevClassR(d, m, O, mt) == DevClassX(d, NoSide(d), m, O, mt)
 DevClass(d, m, O) == DevClassR(d, m, O, MatchingM(d, m, O))
 
 \* corners the usage text leaves open: comparisons YCompare calls Silent; --onlykeynames together with
-\* --refnames or with Set members (are those "key names"?)
-InfoCase(d, m, O) ==
+\* --refnames or with Set members (are those "key names"?); the name of a key's anchor when key names are not
+\* searched; a `<<` reference reported without --refnames or in key-names-only mode
+InfoCaseX(d, sx, m, O, mt) ==
   \/ ((O.vals \/ \E s \in 1..Len(d) : d[s].k = "set") /\ m.ival)
   \/ (O.keys /\ m.ikey)
-  \/ (O.refs /\ m.iref)
+  \/ ((O.refs \/ (O.va /\ HasMerges(d, sx))) /\ m.iref)
   \/ (~O.vals /\ O.refs /\ AnchorNames(d) # {})
   \/ (~O.vals /\ \E s \in 1..Len(d) : d[s].k = "set" /\ Len(d[s].kids) > 0)
+  \/ (~O.keys /\ O.refs /\ \E a \in KAnchorNames(sx) : m.ref[a])
+  \/ ((~O.refs \/ ~O.vals) /\ \E i \in mt : i > Len(d))
+  \/ (O.va /\ \E u \in 1..Len(d) : \E r \in 1..Len(sx.merges[u]) : ~Scanned(d, sx.merges[u][r]) /\ m.ref[d[sx.merges[u][r]].anchor])
+InfoCase(d, m, O) == InfoCaseX(d, NoSide(d), m, O, MatchingM(d, m, O))
 =============================================================================
